@@ -564,7 +564,13 @@ pub fn encode_patched(set: &TileSet, layout: &Layout, patch: &mut dyn FnMut(Sect
 	let mut h = vec![];
 	h.extend_from_slice(b"PMTiles");
 	h.push(3);
-	for v in [root.0, root.1, metar.0, metar.1, leaves.0, leaves.1, datar.0, datar.1, ids.len() as u64, entries.len() as u64, contents] {
+	// the three counters may be 0 = "unknown" (specification, section 3.2): every fourth layout
+	let counts_unknown = (layout.seed >> 5) % 4 == 0;
+	if counts_unknown {
+		used.push("header-counts-unknown");
+	}
+	let counts = if counts_unknown { [0u64; 3] } else { [ids.len() as u64, entries.len() as u64, contents] };
+	for v in [root.0, root.1, metar.0, metar.1, leaves.0, leaves.1, datar.0, datar.1, counts[0], counts[1], counts[2]] {
 		h.extend_from_slice(&v.to_le_bytes());
 	}
 	h.push(if layout.unclustered { 0 } else { 1 });
